@@ -179,6 +179,9 @@ type LockEngine struct {
 	exit    map[*ssa.Function]lockSet   // state at returns (meet)
 	root    map[*ssa.Function]string    // why the entry lockset is empty
 	sitesOf map[*ssa.Function][]ssa.CallInstruction
+	// calls of a function-typed parameter inside a repository helper -> the callbacks handed to
+	// that helper by its callers (they run synchronously at that call)
+	cbAt map[*ssa.Call][]*ssa.Function
 	// lock-order edges: held -> acquired, with a witness position
 	order map[[2]string]string
 	// unlock of a lock that is not held, unbalanced paths
@@ -198,7 +201,7 @@ func (p *Prog) Locks() *LockEngine {
 	}
 	le := &LockEngine{p: p, entry: map[*ssa.Function]lockSet{}, acq: map[*ssa.Function]lockSet{}, rel: map[*ssa.Function]lockSet{},
 		at: map[ssa.Instruction]lockSet{}, exit: map[*ssa.Function]lockSet{}, root: map[*ssa.Function]string{},
-		sitesOf: map[*ssa.Function][]ssa.CallInstruction{}, order: map[[2]string]string{}}
+		sitesOf: map[*ssa.Function][]ssa.CallInstruction{}, cbAt: map[*ssa.Call][]*ssa.Function{}, order: map[[2]string]string{}}
 	for _, fn := range p.fns {
 		// Promotion wrappers ("wrapper for func (T).M") exist only for interface
 		// method sets; interface dispatch is modelled by the exposure rule and
@@ -477,6 +480,46 @@ func (le *LockEngine) computeSites() {
 					le.sitesOf[cb] = append(le.sitesOf[cb], x)
 					controlledUse[cb]++
 				}
+				// a function handed to a repository helper that does nothing with it but call it
+				// synchronously (withLock(func() {...})): the callback runs at the helper's call sites
+				if h := staticCallee(x); h != nil && h.Blocks != nil && le.p.IsRepoFn(h) && len(h.Params) == len(x.Call.Args) {
+					for i, a := range x.Call.Args {
+						var cb *ssa.Function
+						switch v := a.(type) {
+						case *ssa.MakeClosure:
+							cb, _ = v.Fn.(*ssa.Function)
+						case *ssa.Function:
+							cb = v
+						}
+						if cb == nil || !le.p.IsRepoFn(cb) {
+							continue
+						}
+						var sites []*ssa.Call
+						onlyCalled := h.Params[i].Referrers() != nil
+						if onlyCalled {
+							for _, r := range *h.Params[i].Referrers() {
+								switch u := r.(type) {
+								case *ssa.Call:
+									if u.Call.Value == ssa.Value(h.Params[i]) && !u.Call.IsInvoke() {
+										sites = append(sites, u)
+										continue
+									}
+									onlyCalled = false
+								case *ssa.DebugRef:
+								default:
+									onlyCalled = false
+								}
+							}
+						}
+						if onlyCalled && len(sites) > 0 {
+							for _, cs := range sites {
+								le.sitesOf[cb] = append(le.sitesOf[cb], cs)
+								le.cbAt[cs] = append(le.cbAt[cs], cb)
+							}
+							controlledUse[cb]++
+						}
+					}
+				}
 			case *ssa.MakeInterface:
 				iface, _ := x.Type().Underlying().(*types.Interface)
 				if iface == nil || iface.NumMethods() == 0 {
@@ -529,6 +572,9 @@ func (le *LockEngine) computeSites() {
 				if ci, ok := in.(ssa.CallInstruction); ok && ci.Common().Value == *op && !ci.Common().IsInvoke() {
 					continue
 				}
+				if mc, ok := in.(*ssa.MakeClosure); ok && mc.Fn == *op {
+					continue // the closure being made: its uses are the uses of the MakeClosure value
+				}
 				valueUse[f]++
 			}
 		})
@@ -577,6 +623,7 @@ func (le *LockEngine) computeEntries() {
 					targets = append(targets, f)
 				}
 				targets = append(targets, le.callbackTargets(c)...)
+				targets = append(targets, le.cbAt[c]...)
 				for _, t := range targets {
 					if _, isRoot := le.root[t]; isRoot {
 						continue
@@ -626,6 +673,22 @@ func (le *LockEngine) StateAt(in ssa.Instruction) string {
 		return "{?}"
 	}
 	return st.String()
+}
+
+// HeldKeys lists the locks held (in any mode) just before instruction in.
+func (le *LockEngine) HeldKeys(in ssa.Instruction) []string {
+	st, ok := le.at[in]
+	if !ok || st.top {
+		return nil
+	}
+	var out []string
+	for k, m := range st.m {
+		if m > heldNone {
+			out = append(out, k)
+		}
+	}
+	sort.Strings(out)
+	return out
 }
 
 // Entry describes the entry lockset of fn.
